@@ -186,6 +186,21 @@ fn structured(fmt: &str, rng: &mut Rng, quick: bool) -> Vec<(String, Vec<u8>)> {
         let budget = rng.range(20, 300);
         v.push(("selfsim-s".into(), self_similar(rng, &[3, 4, 5, 16, 17, 18, 19], &[1, 2, 3, 4], budget, 2)));
     }
+    // exact longest match: a block A of L noise bytes, a separator, A again, then a byte that ends the match - for L at
+    // every boundary of the token forms (literal / reference, and the 2- / 3- / 4-byte reference layouts)
+    let exact: &[usize] = if fmt == "lz10" { &[2, 3, 4, 16, 17, 18, 19, 20] }
+                          else { &[2, 3, 4, 15, 16, 17, 18, 0x10F, 0x110, 0x111, 0x112, 4094, 4095] };
+    for &l in exact {
+        for _ in 0..2 {
+            let a = rng.bytes(l);
+            let mut x = a.clone();
+            x.push(!a[0]);
+            x.extend_from_slice(&a);
+            x.push(!a[l - 1] ^ 0x55);
+            x.extend(rng.bytes(3));
+            v.push((format!("exact{}", l), x));
+        }
+    }
     // incompressible
     let inc: &[usize] = if quick { &[63, 64, 65, 127, 128, 129, 1000, 4097, 6000] } else { &[63, 64, 65, 127, 128, 129, 1000, 4097, 6000, 20000, 65536] };
     for &n in inc {
